@@ -23,7 +23,7 @@ import re._compiler as sre_compile
 import z3
 
 from .core import (Unsupported, HarnessError, Ctx, SymStr, SymChar, SymInt, ch_eq, ch_in, zand, zor, znot,
-                   ranges_from_pred, ranges_norm, mkbool, cs_key)
+                   ranges_from_pred, ranges_norm, ranges_inter, mkbool, cs_key)
 
 _FLAGMASK = _re.IGNORECASE | _re.ASCII | _re.DOTALL | _re.MULTILINE | _re.UNICODE
 _node_pat_cache = {}
@@ -59,7 +59,16 @@ class Matcher:
 
     def single(self, node, i):
         """condition for cs[i] matching single-char node"""
-        return ch_in(self.cs[i], node_ranges(node, self.flags))
+        c = self.cs[i]
+        if isinstance(c, str):
+            # a concrete character may lie outside the alphabet in force (e.g. a private-use placeholder)
+            return _single_pat(node, self.flags)[0].fullmatch(c) is not None
+        alpha = Ctx.cur.alphabet
+        if ranges_inter(c.dom, alpha) != c.dom:
+            # so may part of a symbolic character's domain (str.replace by such a placeholder): classify over it
+            pat, key = _single_pat(node, self.flags)
+            return ch_in(c, ranges_from_pred(("rx",) + key, lambda ch: pat.fullmatch(ch) is not None, c.dom))
+        return ch_in(c, node_ranges(node, self.flags))
 
     def at(self, av, i):
         n = self.n
